@@ -312,22 +312,28 @@ func wellBehavedDict(r *vhlib.Rand, sub int) []byte {
 			add("m", d)
 		}
 		if r.Bool() {
-			switch r.Intn(4) {
+			switch r.Intn(5) {
 			case 0:
 				add("upload_only", benInt(int64(r.Intn(3))))
 			case 1:
 				add("upload_only", benStr([]byte("1")))
 			case 2:
 				add("upload_only", benStr([]byte("0")))
+			case 3:
+				// any other string is an error of the boolOrString decoder
+				add("upload_only", benStr([]byte(boolStrings[r.Intn(len(boolStrings))])))
 			default:
 				add("upload_only", benInt(1))
 			}
 		}
 		if r.Bool() {
-			if r.Bool() {
+			switch r.Intn(3) {
+			case 0:
 				add("e", benInt(int64(r.Intn(2))))
-			} else {
+			case 1:
 				add("e", benStr([]byte{byte('0' + r.Intn(2))}))
+			default:
+				add("e", benStr([]byte(boolStrings[r.Intn(len(boolStrings))])))
 			}
 		}
 	case 1:
@@ -390,6 +396,24 @@ func wellBehavedDict(r *vhlib.Rand, sub int) []byte {
 }
 
 var hugeStr int
+
+var boolStrings = []string{"", "0", "1", "2", "00", "01", "true", "false", "yes", "no", "x", " "}
+
+// schemaKeys: every key of the three bencoded payloads; confusedValues: one value of every
+// bencode shape.  The hostile stream tries every key with every shape (type confusion).
+var schemaKeys = [][]string{
+	{"v", "ipv4", "ipv6", "p", "reqq", "metadata_size", "m", "upload_only", "e"},
+	{"added", "added.f", "added6", "added6.f", "dropped", "dropped6"},
+	{"msg_type", "piece", "total_size"},
+}
+
+var confusedValues = []string{
+	"i0e", "i1e", "i-1e", "i255e", "i256e", "i65536e", "i4294967296e", "i18446744073709551616e",
+	"i-9223372036854775808e", "ie", "i-e", "i1", "0:", "1:0", "1:1", "1:x", "4:true", "5:false",
+	"6:abcdef", "18:abcdefghijklmnopqr", "le", "li1ee", "li1ei2ei3ei4ei5ei6ee", "l1:ae", "l0:e",
+	"lli1eee", "de", "d1:ai1ee", "d1:a1:be", "d1:ade", "d0:i1ee", "d6:ut_pexi1ee",
+	"d6:ut_pexi-1ee", "d6:ut_pexi256ee", "d6:ut_pex1:1e", "d6:ut_pexlee",
+}
 
 var hostile = [][]byte{
 	[]byte("d1:v2000000000:"), // huge declared string length (zeebo make([]byte, l))
@@ -513,6 +537,22 @@ func genCase(c *vhlib.Ctx, r *vhlib.Rand) {
 		var d []byte
 		if r.Chance(10) {
 			d = deepNest(r.PickInt(10, 1000, 100000))
+		} else if r.Chance(60) {
+			// type confusion: a schema key with a value of an arbitrary shape, inside an
+			// otherwise plausible dictionary
+			keys := schemaKeys[sub]
+			k := keys[r.Intn(len(keys))]
+			v := confusedValues[r.Intn(len(confusedValues))]
+			d = []byte("d")
+			if sub == 2 && k != "msg_type" && r.Bool() {
+				d = append(d, []byte("8:msg_typei1e")...)
+			}
+			d = append(d, benStr([]byte(k))...)
+			d = append(d, v...)
+			if sub == 2 && k != "piece" && r.Bool() {
+				d = append(d, []byte("5:piecei0e")...)
+			}
+			d = append(d, 'e')
 		} else {
 			hi := r.Intn(len(hostile))
 			if hi == 0 {
